@@ -95,6 +95,9 @@ var bubbleRe = regexp.MustCompile(`synctest bubble (\d+)`)
 
 // leftovers returns the stacks of goroutines in the current bubble (other
 // than the caller) that have a frame inside the connect-go library itself.
+// Leftovers is exported for checks that run their own bubbles.
+func Leftovers() []string { return leftovers() }
+
 func leftovers() []string {
 	buf := make([]byte, 1<<20)
 	n := runtime.Stack(buf, true)
